@@ -4,7 +4,7 @@ From Coq Require Import List NArith ZArith Bool Arith Lia Permutation.
 From SK Require Import lib.IRSortKeys lib.IRCore lib.IRSearch model.C18_Model
   proof.C18_Order proof.C18_Spec proof.C18_Graph proof.C18_Canon proof.C18_Equiv proof.C18_Label proof.C18_Aut
   proof.C18_Invariant proof.C18_Wf proof.C18_Count proof.C18_View proof.C18_Refine proof.C18_NetBip proof.C18_Net proof.C18_Orbits.
-From SK Require Import lib.C18_IRValid.
+From SK Require Import lib.C18_IRValid model.C18_AttrModel proof.C18_Attr.
 Import ListNotations.
 
 (* ---------------- a checker for Permutation on concrete lists ---------------- *)
@@ -225,3 +225,10 @@ Qed.
 Example ex_mappings : length (maps_from_perms leaf_a [leaf_a; leaf_b]) = 2 /\
   existsb (fun kv => N.eqb (fst kv) 0 && N.eqb (snd kv) 1) (nth 1 (maps_from_perms leaf_a [leaf_a; leaf_b]) []) = true.
 Proof. vm_compute. split; reflexivity. Qed.
+
+(** C18_attr_default / C18_attr_canon_iso: the example view under the selection (label, bipartite; stoich) with label table
+    A,B,C < r (species labelled by name, both reactions by rule "r"): the labels split {A,B}, the search needs no individualisation *)
+Definition lt1 : ltab := [(0%N, (0%Z, [65%N])); (1%N, (1%Z, [66%N])); (2%N, (2%Z, [67%N])); (3%N, (3%Z, [114%N])); (4%N, (3%Z, [114%N]))].
+Example ex_attr : NoDup (node_ids g1) /\ length (snd (canon_searchA g1 lt1 [NLabel; NBip] [EStoich])) = 1 /\
+  length (snd (canon_searchA g1 lt1 [] [])) = 2.
+Proof. split; [apply wf_g1|]. vm_compute. auto. Qed.
